@@ -330,16 +330,29 @@ AddrIsName(a) == a = "name"         \* Server.checkAddrPattern: the port (if any
    defaults then (prepareRequest treats them independently of the server). *)
 LBKinds == {"default", "roundRobin", "random", "weightedRandom", "weightedRandom0", "ipHash", "headerHash"}
 
-ReqScn == { s \in [addr : AddrKinds, keepHost : BOOLEAN, lb : LBKinds,
-                   ra : AdaptorKinds, rahdr : BOOLEAN, reqMode : {"buf", "stream"},
-                   path : 1..Len(Paths), query : 1..Len(Queries), hshape : {"min", "rich"},
-                   rbody : {"none", "cl", "chunked"}, renc : {"identity", "gzip"},
-                   rmem : {1, 2},                         \* gzip members of the client's body
+(* (the space is put together from products over the given value sets: TLC enumerates a product before it
+   filters it) *)
+ReqScnOf(LB, RA, RAH, P, Q, HS, RB, RM) ==
+          { s \in [addr : AddrKinds, keepHost : BOOLEAN, lb : LB,
+                   ra : RA, rahdr : RAH, reqMode : {"buf", "stream"},
+                   path : P, query : Q, hshape : HS,
+                   rbody : RB, renc : {"identity", "gzip"},
+                   rmem : RM,                             \* gzip members of the client's body
                    fails : 0..(MaxAttempts - 1)] :        \* attempts that fail before one succeeds
             /\ s.rbody = "none" => s.renc = "identity"
             /\ s.rmem > 1 => s.renc = "gzip"
-            /\ s.lb # "default" => (s.path = 1 /\ s.query = 1 /\ s.hshape = "min" /\ s.ra = "none" /\ ~s.rahdr /\ s.rmem = 1)
             /\ s.fails > 0 => s.reqMode = "buf" }         \* a stream request is never retried (by design)
+RBodies == {"none", "cl", "chunked"}
+(* the path classes 1..13 (escaping) with every other dimension; the classes of empty and dot segments with the
+   dimensions prepareRequest could mix them up with (server address, request mode, retries, body); bodies of
+   several gzip members with the default target *)
+EscPaths == 1..13
+SegPaths == 14..Len(Paths)
+ReqScnMain == ReqScnOf({"default"}, AdaptorKinds, BOOLEAN, EscPaths, 1..Len(Queries), {"min", "rich"}, RBodies, {1})
+              \cup ReqScnOf({"default"}, {"none"}, {FALSE}, SegPaths, 1..Len(Queries), {"min"}, RBodies, {1})
+              \cup ReqScnOf({"default"}, AdaptorKinds, BOOLEAN, {1}, {1}, {"min", "rich"}, RBodies, {2})
+ReqScnLB(RB) == ReqScnOf(LBKinds \ {"default"}, {"none"}, {FALSE}, {1}, {1}, {"min"}, RB, {1})
+ReqScn == ReqScnMain \cup ReqScnLB(RBodies)
 
 (* cache: the pool has a memoryCache that admits the request's method and the backend's status; the
           scenario is then a SEQUENCE of RespK identical requests to the same proxy instance
@@ -351,7 +364,7 @@ RespScn == { s \in [comp : {"off", "low", "high"}, rsa : AdaptorKinds, rsahdr : 
                     bsize : {0, 10, 100}, gzd : {-3, 7}, cache : BOOLEAN, short : BOOLEAN,
                     bmem : {1, 2}] :                       \* gzip members of the backend's body
              /\ s.short => (s.bframing = "cl" /\ s.bsize > 0 /\ ~s.head /\ ~s.cache /\ s.status # 304)
-             /\ s.bmem > 1 => (s.benc = "gzip" /\ s.bsize > 0 /\ s.status # 304)
+             /\ s.bmem > 1 => (s.benc = "gzip" /\ s.bsize > 0 /\ s.status # 304 /\ s.gzd = 7)
              \* 304 (Not Modified): a response that has no body whatever the method; the headers may still describe the
              \* representation (Content-Length, Content-Encoding); bsize is only the length it declares
              /\ s.status = 304 => s.bsize = 10 }
@@ -376,8 +389,10 @@ DefaultRespScn == [comp |-> "off", rsa |-> "none", rsahdr |-> FALSE, respMode |-
 (* quick tier: the path/query dimension is explored with the other request dimensions at their
    default and vice versa (prepareRequest treats them independently); one gzip size delta; the
    status class only with the other response dimensions at their default *)
-ReqScnQuick == {s \in ReqScn : /\ (s.path = 1 /\ s.query = 1) \/ [s EXCEPT !.path = 1, !.query = 1] = DefaultReqScn
-                               /\ s.lb # "default" => s.rbody = "none"}
+ReqScnQuick == ReqScnOf({"default"}, AdaptorKinds, BOOLEAN, {1}, {1}, {"min", "rich"}, RBodies, {1, 2})
+               \cup {s \in ReqScnOf({"default"}, {"none"}, {FALSE}, 1..Len(Paths), 1..Len(Queries), {"min"}, {"none"}, {1}) :
+                        [s EXCEPT !.path = 1, !.query = 1] = DefaultReqScn}
+               \cup ReqScnLB({"none"})
 (* (bodies of several gzip members: with the ResponseAdaptor's header operations off and a 200) *)
 MultiQuick(s) == s.bmem > 1 => (~s.rsahdr /\ s.status = 200)
 RespScnQuick == {s \in RespScn : s.gzd = 7 /\ MultiQuick(s) /\ (s.status = 200 \/ [s EXCEPT !.status = 200] = DefaultRespScn
@@ -650,7 +665,10 @@ L_RespContract(inner, outer, D, w, o) ==
               ELSE TRUE
 
 (* ---- the scenario space of the model (abstract sizes; the harness scales them) ---- *)
-LimD     == [lo |-> 8, hi |-> 9, gzc |-> 2, gzd |-> 0]
+(* (the default lies above every body explored around an explicit limit - up to 4 x 5 - as 4MB lies above the
+   bytes the harness scales 3 and 5 to: a body sized around one limit keeps its meaning when a hot update
+   changes the settings) *)
+LimD     == [lo |-> 40, hi |-> 41, gzc |-> 2, gzd |-> 0]
 LimGz    == 2            \* what gzip adds to a body in the model (<= GzMax(LimD, n))
 LimInner == {0, 3, -1}
 LimOuter == {0, 5, -1}
@@ -671,6 +689,13 @@ LimWires0(dir, i, o) ==
    limits hold for every content type *)
 LimWires(dir, i, o) == {[enc |-> w.enc, declared |-> w.declared, actual |-> w.actual, comp |-> w.comp, ctype |-> t] :
                            w \in LimWires0(dir, i, o), t \in CTypeClasses}
+
+(* hot update of the HTTPServer (request direction): the settings <<path-level, server-level>> after it.  One
+   of the two settings changes (or none: no update); the bodies stay the ones sized around the first
+   settings.  The contract is stateless: every request is judged by the settings in force when it is
+   made.  Updates are explored with honest lengths and one media type. *)
+LimUpdates(i, o) == {<<i, o>>} \cup {<<i2, o>> : i2 \in LimInner \ {i}} \cup {<<i, o2>> : o2 \in LimOuter \ {o}}
+SecondaryCType == "octet"
 
 (* ---- implementation-shaped: Request.FetchPayload / Response.FetchPayload as a function ---- *)
 Min2(a, b) == IF a < b THEN a ELSE b
